@@ -125,12 +125,14 @@ def check(case):
         require(_same(np.asarray(fs.eer()), np.asarray(ref.eer())), "fraud:eer", ctx)
         require(_same(fs.auc(), ref.auc()) and _same(fs.auc(0.1, 0.7), ref.auc(0.1, 0.7)), "fraud:auc", ctx)
     # from_labels splits by the genuine label
-    lab = np.concatenate([np.full(n, 5), np.full(m_, 2)]).astype(int)
     sco = np.concatenate([g, f])
     perm = np.random.RandomState(case["order"]).permutation(n + m_)
-    fl = FraudScores.from_labels(lab[perm], sco[perm], genuine_label=5, score_class=sc_arg,
-                                 nb_easy_genuines=case["eg"], nb_easy_frauds=case["ef"])
-    require(isinstance(fl, FraudScores) and fl == fs, "fraud:from-labels", ctx)
+    for gl, fl_ in ((5, 2), (0, 1), (True, False), (False, True), ("g", "f"), ("", "x")):
+        lab = np.asarray([gl] * n + [fl_] * m_) if n + m_ else np.asarray([], dtype=type(gl))
+        fl = FraudScores.from_labels(lab[perm], sco[perm], genuine_label=gl, score_class=sc_arg,
+                                     nb_easy_genuines=case["eg"], nb_easy_frauds=case["ef"])
+        require(isinstance(fl, FraudScores) and fl == fs, "fraud:from-labels",
+                f"{ctx}: labels {gl!r}/{fl_!r} with genuine_label={gl!r}")
     # assignment through the setters reaches pos / neg
     fs2 = FraudScores(genuines=g, frauds=f, score_class=sc_arg)
     if n + m_ >= 2 and len(set(map(float, case["g"] + case["f"]))) >= 2:
@@ -162,6 +164,40 @@ def check(case):
     return dict(nontrivial=bool(n and m_ and edge), labels=["accepted", f"dtype:{case['dtype']}"])
 
 
+# ------------------------------------------------------------------ seeded bootstrap results
+def _boot_cases(tier):
+    sizes = [(12, 9), (300, 400), (12_000, 500)] if tier == "quick" else \
+        [(12, 9), (300, 400), (12_000, 500), (700, 25_000), (30_000, 30_000)]
+    for k, (n, m) in enumerate(sizes):
+        for sc in ("genuine", "fraud"):
+            yield dict(n=n, m=m, sc=sc, seed=11 + k)
+
+
+def check_seeded_bootstrap(case):
+    """A script that seeds the global RNG, builds the object and bootstraps gets what the same
+    script with a plain Scores object gets (construction consumes no randomness)."""
+    from score_analysis import BootstrapConfig, Scores
+    from score_analysis.applications import FraudScores
+
+    warnings.simplefilter("ignore")
+    rs = np.random.RandomState(case["seed"])
+    g = rs.randint(0, 1001, size=case["n"]) / 1000.0
+    f = rs.randint(0, 1001, size=case["m"]) / 1000.0
+    cfg = BootstrapConfig(nb_samples=4, bootstrap_method="quantile", sampling_method="replacement")
+    out = []
+    for kind in ("fraud", "plain"):
+        np.random.seed(case["seed"])
+        if kind == "fraud":
+            o = FraudScores(genuines=g, frauds=f, score_class=case["sc"])
+        else:
+            o = Scores(g, f, score_class={"genuine": "pos", "fraud": "neg"}[case["sc"]], equal_class="pos")
+        out.append((np.asarray(o.bootstrap_ci("fnr", alpha=0.1, config=cfg, threshold=np.asarray([0.3, 0.6]))),
+                    np.asarray(o.bootstrap_metric("eer", config=cfg))))
+    require(_same(out[0][0], out[1][0]) and _same(out[0][1], out[1][1]), "fraud:seeded-bootstrap",
+            f"n={case['n']} m={case['m']} score_class={case['sc']}: seeded bootstrap results differ from Scores")
+    return dict(nontrivial=True, labels=[f"n>={min(case['n'], case['m'])}"])
+
+
 PROP = Prop(
     id="C19",
     rule=("Hypothesis: genuine/fraud arrays of 0-8 scores (floats inside [0,1] with 0, 1 and -0.0 "
@@ -174,7 +210,9 @@ PROP = Prop(
           "the setters); from_labels == direct construction from the split; label translations "
           "mutually inverse on all four values. Non-trivial = rejected, or accepted with both "
           "classes non-empty and a score exactly 0 or 1."),
-    clauses=[Clause("fraud_view", check, strategy=_cases(), quick=500, thorough=12500, quick_shards=4,
+    clauses=[Clause("seeded_bootstrap", check_seeded_bootstrap, kind="enum", cases=_boot_cases, quick_shards=3,
+                    shards=5, min_nontrivial=2, doc="seed; construct; bootstrap == the same with Scores (9 to 3e4 scores)"),
+             Clause("fraud_view", check, strategy=_cases(), quick=500, thorough=12500, quick_shards=4,
                     min_nontrivial=200, doc="validation iff out of range; differential vs Scores")],
 )
 
